@@ -57,19 +57,24 @@ class Gen:
         # emitted: pub enum <packet.Name><f.Name>Enum
         return owner + f.name + 'Enum'
 
-    def struct_expr(self, tname, owner_name, fields, msg):
+    def Q(self, top, name):
+        """path of a struct / enum: every declared packet has its module, inline objects live in the module of the packet that declares them"""
+        return 'proto::%s::%s' % (self.it.snake(top), self.T(name) if name in self.it.names else name)
+
+    def struct_expr(self, tname, owner_name, fields, msg, top=None):
+        top = top or tname
         parts = []
         for f in fields:
             e = self.p.eff(f)
             v = msg[f.name]
             if f.repeat:
-                ex = 'vec![%s]' % ', '.join(self.value(owner_name, f, e, x) for x in v)
+                ex = 'vec![%s]' % ', '.join(self.value(owner_name, f, e, x, top) for x in v)
             else:
-                ex = self.value(owner_name, f, e, v)
+                ex = self.value(owner_name, f, e, v, top)
             parts.append('%s: %s' % (self.it.snake(f.name), ex))
-        return '%s { %s }' % (self.T(tname), ', '.join(parts))
+        return '%s { %s }' % (self.Q(top, tname), ', '.join(parts))
 
-    def value(self, owner, f, e, v):
+    def value(self, owner, f, e, v, top):
         k = e.kind
         if k in ('num', 'len', 'cksum'):
             if e.ntype == 'f32':
@@ -86,23 +91,25 @@ class Gen:
         if k == 'ref':
             return self.struct_expr(f.packet, f.packet, self.p.packet(f.packet).fields, v)
         if k == 'inline':
-            return self.struct_expr(f.name, f.name, e.fields, v)
+            return self.struct_expr(f.name, f.name, e.fields, v, top)
         if k == 'match':
             pn, body = v
-            return '%s::%s(%s)' % (self.enum_name(owner, f), pn, self.struct_expr(pn, pn, self.p.packet(pn).fields, body))
+            return '%s::%s(%s)' % (self.Q(top, self.enum_name(owner, f)), pn, self.struct_expr(pn, pn, self.p.packet(pn).fields, body))
         raise ValueError(k)
 
     def dump_funcs(self):
         L = self.L
         done = set()
 
-        def dump_fields(tname, fields):
-            if tname in done:
+        def dump_fields(tname, fields, top=None):
+            top = top or tname
+            fn = 'dump_%s' % tname if top == tname else 'dump_%s__%s' % (top, tname)
+            if fn in done:
                 return
-            done.add(tname)
+            done.add(fn)
             subs = []
             L.append('#[allow(non_snake_case, unused_variables, unused_mut)]')
-            L.append('fn dump_%s(o: &%s) -> String {' % (tname, self.T(tname)))
+            L.append('fn %s(o: &%s) -> String {' % (fn, self.Q(top, tname)))
             L.append('    let mut r = String::from("{");')
             for f in fields:
                 e = self.p.eff(f)
@@ -110,20 +117,20 @@ class Gen:
                 L.append('    r.push_str("%s=");' % f.name)
                 if f.repeat:
                     L.append('    r.push_str("[");')
-                    L.append('    for (i, x) in %s.iter().enumerate() { if i > 0 { r.push_str(","); } r.push_str(&%s); }' % (acc, self.dump_one(tname, f, e, '(*x)', 'x', subs)))
+                    L.append('    for (i, x) in %s.iter().enumerate() { if i > 0 { r.push_str(","); } r.push_str(&%s); }' % (acc, self.dump_one(tname, f, e, '(*x)', 'x', subs, top)))
                     L.append('    r.push_str("]");')
                 else:
-                    L.append('    r.push_str(&%s);' % self.dump_one(tname, f, e, acc, '&' + acc, subs))
+                    L.append('    r.push_str(&%s);' % self.dump_one(tname, f, e, acc, '&' + acc, subs, top))
                 L.append('    r.push_str(";");')
             L.append('    r.push_str("}");')
             L.append('    r')
             L.append('}')
             for nm, fl in subs:
-                dump_fields(nm, fl)
+                dump_fields(nm, fl, top)
         for pk in self.p.packets:
             dump_fields(pk.name, pk.fields)
 
-    def dump_one(self, owner, f, e, val, ref, subs):
+    def dump_one(self, owner, f, e, val, ref, subs, top):
         k = e.kind
         if k in ('num', 'len', 'cksum'):
             if e.ntype == 'f32':
@@ -139,7 +146,7 @@ class Gen:
             return 'dump_%s(%s)' % (f.packet, ref)
         if k == 'inline':
             subs.append((f.name, e.fields))
-            return 'dump_%s(%s)' % (f.name, ref)
+            return 'dump_%s__%s(%s)' % (top, f.name, ref)
         if k == 'match':
             arms = []
             seen = set()
@@ -147,7 +154,7 @@ class Gen:
                 if pn in seen:
                     continue
                 seen.add(pn)
-                arms.append('%s::%s(x) => format!("<%s>{}", dump_%s(x))' % (self.enum_name(owner, f), pn, pn, pn))
+                arms.append('%s::%s(x) => format!("<%s>{}", dump_%s(x))' % (self.Q(top, self.enum_name(owner, f)), pn, pn, pn))
             return '(match %s { %s })' % (ref, ', '.join(arms))
         raise ValueError(k)
 
@@ -163,11 +170,11 @@ class Gen:
             L.append('use proto::%s::*;' % m)
         L.append(HELPERS)
         for i, (shape, msg) in enumerate(it.msgs):
-            L.append('fn build%d() -> %s { %s }' % (i, self.T(root.name), self.struct_expr(root.name, root.name, root.fields, msg)))
+            L.append('fn build%d() -> %s { %s }' % (i, self.Q(root.name, root.name), self.struct_expr(root.name, root.name, root.fields, msg)))
         L.append('fn build(i: usize) -> %s { match i { %s _ => panic!("no such message") } }' % (
-            self.T(root.name), ' '.join('%d => build%d(),' % (i, i) for i in range(len(it.msgs)))))
+            self.Q(root.name, root.name), ' '.join('%d => build%d(),' % (i, i) for i in range(len(it.msgs)))))
         self.dump_funcs()
-        L.append(MAIN.replace('@ROOT@', self.T(root.name)).replace('@DUMPROOT@', 'dump_' + root.name))
+        L.append(MAIN.replace('@ROOT@', self.Q(root.name, root.name)).replace('@DUMPROOT@', 'dump_' + root.name))
         return '\n'.join(L) + '\n'
 
 
